@@ -106,9 +106,11 @@ theorem runCmds_sim (sc : Scripts) {w : World} (hr : Rest w) (hs : Sim false w) 
     any size, sweeps at any spacing incl. backlog), the history of observable events produced by the model of
     lib/efuns/call_out.c is accepted by the specification oracle `judgeEv`: every scheduled call_out of a live
     object that is not removed fires exactly once, with its argument, not before its time and no later than the
-    first `call_out()` at or after it; find/remove (by handle and by name) answer exactly `due - now`; a removed
+    first `call_out()` at or after it; find/remove (by handle and by name) answer exactly `(int)(due - now)`; a removed
     call_out never fires; call_outs of destructed objects are dropped; an error in a callback loses/repeats
-    nothing; handles are never reused; `call_out_info()` lists exactly the pending call_outs of live objects. -/
+    nothing; handles are never reused; `call_out_info()` lists exactly the pending call_outs of live objects;
+    this_player() in a callback is the saved command_giver (0 if destructed); `reload_object` drops the object's
+    call_outs.  (See NV/C10/PropsNeg.lean for histories the oracle rejects, clause by clause.) -/
 theorem model_satisfies_spec (sc : Scripts) (cmds : List Cmd) :
     judgeEv (events (runCmds sc World.init cmds)) = [] := by
   rw [judgeEv_events, (runCmds_sim sc init_rest init_sim cmds).bad]
@@ -189,8 +191,9 @@ theorem handles_fit_int (sc : Scripts) (cmds : List Cmd) (hb : (runCmds sc World
   generalize (runCmds sc World.init cmds).unique = u at *
   wheel_omega
 
-/-- the efuns return `(int) time_left (...)`; the model returns the unbounded value.  **Explicit side condition**
-    under which the C conversion is the identity: the entry's second lies within 2^31 seconds of `current_time`
+/-- the efuns return `(int) time_left (...)`; the model applies the same conversion (`efunResult`, generated) and the
+    oracle expects a C int (`toCInt`).  **Explicit side condition** under which the conversion is the identity, i.e.
+    the answer is the true time left: the entry's second lies within 2^31 seconds of `current_time`
     (delays and backlog below 2^31).  `trunc32` is the generated C `(int)` conversion. -/
 theorem time_left_fits_int (sc : Scripts) (cmds : List Cmd) (s : Nat) (p : Int × Call)
     (hp : p ∈ cum 0 ((runCmds sc World.init cmds).slots s))
